@@ -10,6 +10,7 @@ import Sonic.Model.StringDec
 import Sonic.Model.Ftoa
 import Sonic.Model.Number
 import Sonic.Model.OnDemand
+import Sonic.Model.ParseOnDemand
 import Sonic.Model.Parse
 import Sonic.Model.Serialize
 import Sonic.Model.Schema
@@ -138,7 +139,7 @@ def step (st : DState) (line : String) : DState × String :=
   | "schema-copy" :: rest => (st, Sonic.Model.Schema.runLine ("schema" :: rest))  -- the copy read-back is judged against the final tree
   | "lazy" :: _ => (st, Sonic.Model.Lazy.runLine st.W toks)
   | "ser" :: _ => (st, Sonic.Model.Serialize.runLine st.W toks)
-  | "pod" :: _ => (st, Sonic.Model.OnDemand.runLine st.W toks)
+  | "pod" :: _ => (st, Sonic.Model.OnDemand.runPodLine st.W toks)
   | "parse" :: _ | "parse-seq" :: _ => (st, Sonic.Model.Parse.runLine st.W toks)
   | ["slice-spec", hx, a, b] =>
     match parseHex hx, a.toNat?, b.toNat? with
